@@ -210,7 +210,7 @@ func runScript(t *testing.T, s wscript, side string, sum *summary, tf *vh.TraceF
 		lc.Close()
 		cc.Close()
 		synctest.Wait()
-		for i := 0; i < 50 && l.VerifAcceptLen() > 0; i++ {
+		for i := 0; i < 5000 && l.VerifAcceptLen() > 0; i++ {
 			if s, err := l.AcceptKCP(); err == nil && s != nil {
 				s.Close()
 			}
@@ -347,7 +347,7 @@ func TestWaitApi(t *testing.T) {
 			synctest.Wait()
 			l.Close()
 			synctest.Wait()
-			for i := 0; i < 50 && l.VerifAcceptLen() > 0; i++ {
+			for i := 0; i < 5000 && l.VerifAcceptLen() > 0; i++ {
 				if s, err := l.AcceptKCP(); err == nil && s != nil {
 					s.Close()
 				}
